@@ -3,7 +3,7 @@ From Coq Require Import String.
 From Coq Require Import List NArith ZArith Sorted.
 From TarsV Require Import Base.Hex Idl.Lexer Idl.LexerProofs Idl.Parser Idl.ParserProofs Idl.Corr.
 From TarsV Require Import Idl.Print Idl.Render.
-From TarsV Require Idl.Schema Idl.SchemaProofs Idl.PrintProofs Idl.RenderProofs Idl.AnalyzeProofs Idl.Accepts Idl.TablesProofs Gen.C16Tables Gen.C16Translated Xlate.GoSem Codec.GenCodec Codec.Corr.
+From TarsV Require Idl.Schema Idl.SchemaProofs Idl.PrintProofs Idl.RenderProofs Idl.AnalyzeProofs Idl.Accepts Idl.TablesProofs Idl.Include Idl.IncludeProofs Gen.C16Tables Gen.C16Translated Xlate.GoSem Codec.GenCodec Codec.Corr.
 Import ListNotations.
 Open Scope N_scope.
 
@@ -110,6 +110,27 @@ Proof. exact AnalyzeProofs.resolved_instance. Qed.
 Print Assumptions C16_members_sorted.
 Print Assumptions C16_analysis_resolves.
 Print Assumptions C16_analysis_resolves_instance.
+
+(* ---- several files (Idl/Include.v: the file system is a parameter; chain of including files, circular-reference
+   diagnostic, FindTNameType / FindEnumName through the included files) ---- *)
+(* the front end terminates on every finite file system: the include chain never repeats a name and every name on it
+   is a file, so fuel (number of files + 2) is never exhausted, whatever the files contain *)
+Theorem C16_terminates_with_includes : forall input files, Include.parse_fs input files <> Include.FFuel.
+Proof. exact IncludeProofs.parse_fs_terminates. Qed.
+(* without other files the multi-file front end is the single-file one the theorems above speak about *)
+Theorem C16_single_file_agrees : forall input m,
+  parse_bytes input = OOk m -> Include.parse_fs input [] = Include.FOk (Include.PT m []).
+Proof. exact IncludeProofs.parse_fs_single_file. Qed.
+Theorem C16_analysis_resolves_with_includes : forall input files t,
+  Include.parse_fs input files = Include.FOk t -> AnalyzeProofs.module_resolved (Include.pt_mod t) = true.
+Proof. exact IncludeProofs.parse_fs_resolved. Qed.
+Theorem C16_includes_instance :
+  Include.parse_fs (bs "#include ""d.tars"" module M { };") [ (bs "d.tars", bs "#include ""in.tars"" module D { };") ] = Include.FErr.
+Proof. exact IncludeProofs.parse_fs_circular. Qed.
+Print Assumptions C16_terminates_with_includes.
+Print Assumptions C16_single_file_agrees.
+Print Assumptions C16_analysis_resolves_with_includes.
+Print Assumptions C16_includes_instance.
 
 (* ---- the model's lexer tables are the tree's (regenerated on every run: Gen/C16Tables.v from the compiled token and
    lexer packages, Gen/C16Translated.v from the Go source of the character classes and type predicates) ---- *)
